@@ -62,6 +62,8 @@ pub fn limit_probes() -> Vec<String> {
             v.push(format!("functie f(n) {{ {}als n == 0 {{ 0 }} anders {{ 1 + f(n - 1) }} }}; f({})", decls, d));
         }
     }
+    // code size: calls made from addresses above 65 535
+    v.push(format!("stel x = 0; functie tel() {{ x = x + 1; x }}; {} [tel(), tel(), x]", "x = x + 1; ".repeat(9000)));
     // operand sizes: arguments, array elements, constants, locals
     for n in [254usize, 255, 256, 257, 300] {
         let params: String = (0..n).map(|k| format!("p{}, ", k)).collect();
@@ -79,6 +81,16 @@ pub fn limit_probes() -> Vec<String> {
         "\"abc\"[-1152921504606846975 - 1]", "stel a = [1]; a[-1152921504606846975 - 1] = 2",
     ] {
         v.push(t.to_string());
+    }
+    // the same range ends through the specialised instructions (a local variable against a literal, either side) and
+    // through two locals
+    let (max, min) = ("1152921504606846975", "(-1152921504606846975 - 1)");
+    for (arg, body) in [
+        (max, "n + 1"), (max, "1 + n"), (max, "n + 0"), (max, "n - -1"), (min, "n - 1"), (min, "n + -1"), (min, "0 - n"), (min, "-1 - n"), (max, "n * 2"), (max, "2 * n"), (min, "n * -1"), (min, "-1 * n"),
+        (min, "n / -1"), (min, "n % -1"), (min, "-n"), (max, "n * n"), (min, "n - n - n"), (max, "n + n"), (min, "n + n"), (max, "n - 1 + 2"), (min, "1 / n"), (max, "n / 0"), (max, "n % 0"), (max, "n > n - 1"), (min, "n < n + 1"),
+    ] {
+        v.push(format!("functie f(n) {{ {} }}; f({})", body, arg));
+        v.push(format!("functie f(n, m) {{ stel k = 1; {} }}; f({}, 1)", body.replace("1", "k"), arg));
     }
     v
 }
